@@ -507,6 +507,10 @@ def core_effects():
     out.append(("P0", ["and", ["r"], ["increase", ["g"], "1"]]))
     out.append(("P1", ["and", ["p", "?x"], ["forall", ["?z", "-", "t1"], ["when", ["q", "?z", "?x"], ["not", ["q", "?z", "?x"]]]]]))
     out.append(("P3", ["and", ["not", ["p", "?x"]], ["when", ["p", "?y"], ["p", "?x"]]]))
+    # a quantifier below a junction inside the condition of a conditional effect (plain and quantified)
+    out.append(("P2", ["and", ["when", ["or", ["forall", ["?z", "-", "t1"], ["and", ["p", "?z"]]], ["r"]], ["q", "?x", "?y"]]]))
+    out.append(("P2", ["and", ["forall", ["?w", "-", "t3"], ["when", ["and", ["p", "?x"], ["or", ["q", "?w", "?y"], ["forall", ["?z", "-", "t1"], ["and", ["q", "?z", "?x"]]]]],
+                                                            ["not", ["p", "?w"]]]]]))
     # a numeric effect inside a quantified conditional effect whose right-hand side reads a fluent that another effect of the
     # same action changes (all right-hand sides are about the state before the action)
     out.append(("P2", ["and", ["decrease", ["g"], "2"], ["forall", ["?z", "-", "t1"], ["when", ["p", "?z"], ["increase", ["f", "?z"], ["g"]]]]]))
